@@ -119,9 +119,23 @@ func c02GenBackpressure(t *rapid.T, cfgs []sut.Config) (c02Case, bool) {
 func c02Gen(t *rapid.T) c02Case {
 	var c c02Case
 	cfgs := shardPick(c02Configs, 3)
-	if rapid.IntRange(0, 9).Draw(t, "mode") < 3 {
+	mode := rapid.IntRange(0, 10).Draw(t, "mode")
+	if mode < 3 {
 		if bp, ok := c02GenBackpressure(t, cfgs); ok {
 			return bp
+		}
+	}
+	if mode == 10 {
+		// replies pile up for a client that reads them in stages and keeps asking (see runPhased); only in the
+		// shards whose configurations include a small send buffer with a read buffer that is not tiny
+		for _, x := range cfgs {
+			if x.SndBuf > 0 && x.BufCap >= 64 {
+				c.Cfg = x
+				cs, plans := genPhased(t, false)
+				c.Spec.Clients = []ClientSpec{cs}
+				c.Spec.Plans = plans
+				return c
+			}
 		}
 	}
 	c.Cfg = rapid.SampledFrom(cfgs).Draw(t, "cfg")
@@ -262,6 +276,10 @@ func c02Classify(c *c02Case) (bool, []string) {
 		nt = true
 		cls = append(cls, "backend-not-reading")
 	}
+	if len(c.Spec.Clients[0].Phases) > 1 {
+		nt = true
+		cls = append(cls, "backlog-read-in-part-then-more-requests")
+	}
 	if len(c.Spec.Abandoned) > 0 {
 		cls = append(cls, "after-clients-that-left-mid-request")
 	}
@@ -308,7 +326,9 @@ func c02Run(f *Fixture, c *c02Case) []Discrepancy {
 	if c.NodePause > 0 {
 		f.Cluster.PauseReads(time.Duration(c.NodePause) * time.Millisecond)
 	}
-	if c.SlowReader {
+	if len(c.Spec.Clients[0].Phases) > 0 {
+		res = runPhased(f, &c.Spec, len(exp))
+	} else if c.SlowReader {
 		res = runSlowReader(f, &c.Spec, len(exp))
 	} else {
 		res = runPipes(f, &c.Spec, []int{len(exp)}, time.Duration(envInt("VERIF_DEADLINE_S", 8))*time.Second)
